@@ -45,10 +45,10 @@ META = dict(
           "one atom) x counts {1, 2, 0.5}; members of a class = every distinct permutation x every grouping "
           "(contiguous blocks, multiplier 1 or 2 with the inner counts divided, nested) built from a nested list, "
           "the stated subset of them also printed and parsed, every insertion order of the dict constructor, and "
-          "three arithmetic spellings per permutation.  Distinct = distinct (class, member spelling).  Non-trivial = "
+          "four arithmetic spellings per permutation (one of them reading .hill and str() of every intermediate before use).  Distinct = distinct (class, member spelling).  Non-trivial = "
           "a member of a class with >= 2 distinct atoms (the sort has something to order)."),
     bound=dict(
-        quick=("classes of n <= 3 entries.  dict (every insertion order), arith (3 spellings x every permutation), "
+        quick=("classes of n <= 3 entries.  dict (every insertion order), arith (4 spellings x every permutation), "
                "struct flat x every permutation: complete.  struct groupings: n <= 2 all; n = 3 all 15 per permutation "
                "for classes with all counts 1, the 7 single-level ones for the others.  parse: n <= 2 every permutation "
                "x every grouping; n = 3: classes with all counts 1 every permutation flat and every grouping of the first "
@@ -162,6 +162,16 @@ def build(E, spec):
                 g = (c / 2) * F(E.atom[tok])
                 f = g if f is None else f + g
             return 2 * f
+        if how == "twice-observed":
+            # the same, but the Hill form and the text of every intermediate are read BEFORE it is used as
+            # an operand (a memoised Hill form must not be handed on to n*f, f+g)
+            f = None
+            for tok, c in seq:
+                a = F(E.atom[tok]); a.hill; str(a)
+                g = (c / 2) * a; g.hill; str(g)
+                f = g if f is None else f + g
+                f.hill; str(f)
+            return 2 * f
     raise MachineryError("unknown member spec %r" % (spec,))
 
 
@@ -178,11 +188,15 @@ def code(E, spec):
         return " + ".join("%r*formula(%s)" % (c, E.pyname(t)) for t, c in seq)
     if how == "iadd":
         return "sum_iadd([%s])" % ", ".join("%r*formula(%s)" % (c, E.pyname(t)) for t, c in seq)
+    if how == "twice-observed":
+        return "twice_observed([%s])" % ", ".join("(%r, %s)" % (c / 2, E.pyname(t)) for t, c in seq)
     return "2*(%s)" % " + ".join("%r*formula(%s)" % (c / 2, E.pyname(t)) for t, c in seq)
 
 
 PRELUDE = ("import periodictable as pt\nfrom periodictable import formula\n"
-           "def sum_iadd(parts):\n    f = formula()\n    for p in parts: f += p\n    return f\n")
+           "def sum_iadd(parts):\n    f = formula()\n    for p in parts: f += p\n    return f\n"
+           "def twice_observed(parts):\n    f = None\n    for c, a in parts:\n        a = formula(a); a.hill; str(a)\n"
+           "        g = c*a; g.hill; str(g)\n        f = g if f is None else f + g\n        f.hill; str(f)\n    return 2*f\n")
 
 
 def _flat(seq):
@@ -229,7 +243,7 @@ def members(E, entries, n, tier, P):
             if p:
                 yield ["parse", R.text(tree, tok)]
         if P["arith"]:
-            for how in ("add", "iadd", "twice"):
+            for how in ("add", "iadd", "twice", "twice-observed"):
                 yield ["arith", how, [[t, c] for t, c in seq]]
     tot = R.merged([(E.first_token[id(E.atom[t])], c) for t, c in entries])
     for order in itertools.permutations(list(tot)):
